@@ -125,6 +125,9 @@ func NewReader(src BlockSource, name string) (*Reader, error) {
 	if err != nil {
 		return nil, err
 	}
+	if len(headBlock) < headerSize(2)+1 {
+		return nil, fmt.Errorf("reftable: file too short")
+	}
 	if bytes.Compare(headBlock[:4], magic[:]) != 0 {
 		return nil, fmt.Errorf("reftable: got magic %q, want %q", headBlock[:4], magic)
 	}
@@ -134,9 +137,13 @@ func NewReader(src BlockSource, name string) (*Reader, error) {
 		return nil, fmt.Errorf("reftable: unsupported version %d", version)
 	}
 
+	fileSize := src.Size()
+	if fileSize < uint64(headerSize(version)+footerSize(version)) {
+		return nil, fmt.Errorf("reftable: file too short")
+	}
 	r := &Reader{
 		version: version,
-		size:    src.Size() - uint64(footerSize(version)),
+		size:    fileSize - uint64(footerSize(version)),
 		src:     src,
 		name:    name,
 	}
@@ -144,6 +151,9 @@ func NewReader(src BlockSource, name string) (*Reader, error) {
 	footBlock, err := src.ReadBlock(r.size, footerSize(version))
 	if err != nil {
 		return nil, err
+	}
+	if len(footBlock) != footerSize(version) {
+		return nil, fmt.Errorf("reftable: short read of footer")
 	}
 
 	if 0 != bytes.Compare(headBlock[:headerSize(version)], footBlock[:headerSize(version)]) {
@@ -164,6 +174,11 @@ func NewReader(src BlockSource, name string) (*Reader, error) {
 		return nil, err
 	}
 
+	switch r.header.HashID {
+	case NullHashID, SHA1ID, SHA256ID:
+	default:
+		return nil, fmt.Errorf("reftable: unknown hash ID %q", r.header.HashID)
+	}
 	r.hashSize = r.header.HashID.Size()
 	r.header.BlockSize &= (1 << 24) - 1
 
